@@ -197,8 +197,11 @@ func parserOf(vm data.VM) *parser.Parser {
 	return (*parser.Parser)(f.UnsafePointer())
 }
 
-func init() {
-	cmd.SetRuntimeLoader(func(vm data.VM) {
+func init() { cmd.SetRuntimeLoader(loadAll) }
+
+// loadAll: what zy.go's init hands to cmd.SetRuntimeLoader, with the VM's throw control replaced (see above)
+func loadAll(vm data.VM) {
+	{
 		// zy.go init
 		std.Load(vm)
 		php.Load(vm)
@@ -222,7 +225,7 @@ func init() {
 			}
 			goruntime.Goexit()
 		})
-	})
+	}
 }
 
 var (
@@ -314,6 +317,8 @@ type vmJob struct {
 	Reps  int      `json:"reps"`   // … and repeat the whole sequence this many times
 	Dir   string   `json:"dir"`    // working directory for the job
 	MaxMS int64    `json:"max_ms"` // stop repeating after this much time (0 = no limit); at least 3 repetitions are made
+	// reorder stream: compare outputs with the text of a stringified closure (heap addresses, a listed known finding) masked
+	MaskClosures bool `json:"mask_closures,omitempty"`
 }
 
 // vmAnswer: per position in Files, the distinct outcomes seen over the repetitions with counts.
@@ -357,6 +362,9 @@ func vmChild(args []string) int {
 				ans.Done++
 				for i, f := range j.Files {
 					o := runVM(f)
+					if j.MaskClosures {
+						o = maskClosures(o)
+					}
 					found := false
 					for k := range ans.Distinct[i] {
 						if ans.Distinct[i][k] == o {
